@@ -49,15 +49,18 @@ Fixpoint has_prefix (pre s : bytes) : bool :=
    any other scalar type is carried through as its proto type number + j5 kind name *)
 Inductive fkind :=
 | KScalar (ptype : N) (j5kind : bytes)
-| KKey (primary : bool) (tenant : option bytes).          (* schema.key {entity{primaryKey,tenantKey}} *)
+| KObject (name : bytes)                  (* object:<Name>, a reference to a schema of this package *)
+| KKey (primary : bool) (foreign : option (bytes * bytes)) (tenant : option bytes).
+  (* schema.key {entity{primaryKey | foreignKey{package,entity}, tenantKey}} *)
 
-Record ufield := mkU { uf_name : bytes; uf_kind : fkind; uf_required : bool }.
+Record ufield := mkU { uf_name : bytes; uf_kind : fkind; uf_required : bool; uf_optional : bool }.
 Record ekey := mkK { k_def : ufield; k_shard : bool }.
 Record event := mkEv { ev_name : bytes; ev_fields : list ufield }.
 Record method := mkM {
   md_name : bytes; md_verb : N;               (* client_j5pb.HTTPMethod: 1 GET 2 POST 3 PUT 4 DELETE 5 PATCH *)
   md_path : bytes;                            (* http_path, relative *)
-  md_request : list ufield; md_response : list ufield }.
+  md_request : list ufield;
+  md_response : option (list ufield) }.       (* None: raw response, google.api.HttpBody *)
 Record command := mkC { c_name : option bytes; c_base : option bytes; c_methods : list method }.
 Record summary := mkS { s_name : bytes; s_fields : list ufield }.
 Record query := mkQ { q_events_in_get : bool; q_default_status : list bytes }.
@@ -71,7 +74,8 @@ Record entity := mkE {
   e_events : list event;
   e_commands : list command;
   e_summaries : list summary;
-  e_query : option query }.
+  e_query : option query;
+  e_schemas : list (bytes * list ufield) }.   (* `object Name {...}` declared inside the entity block *)
 
 (* ---- what is emitted ------------------------------------------------------- *)
 Inductive otype :=
@@ -81,10 +85,14 @@ Inductive otype :=
 | TEnum (pkg name : bytes).
 
 (* a property; its field number is its 1-based position (mapProperties) *)
-Record ofield := mkF {
+Record ofield := mkF10 {
   f_json : bytes; f_type : otype; f_repeated : bool; f_required : bool; f_flatten : bool;
   f_primary : bool; f_tenant : option bytes;
-  f_filter : option (list bytes) }.   (* list filtering: Some defaults = filterable *)
+  f_filter : option (list bytes);     (* list filtering: Some defaults = filterable *)
+  f_foreign : option (bytes * bytes); (* (j5.ext.v1.key).foreign_key {package, entity} *)
+  f_optional : bool }.                (* proto3_optional *)
+(* the fields entity.go itself creates have no foreign key and are never optional *)
+Definition mkF j t r q fl p te fi : ofield := mkF10 j t r q fl p te fi None false.
 
 Record omsg := mkMsg {
   m_name : bytes;
@@ -130,10 +138,17 @@ Definition local_obj (e : entity) (suffix : string) : otype := TObject [] (compo
 (* ---- user fields -> properties (buildProperty) ---------------------------------- *)
 Definition of_ufield (u : ufield) : ofield :=
   match uf_kind u with
-  | KScalar pt k => mkF (uf_name u) (TScalar pt k) false (uf_required u) false false None None
-  | KKey primary tenant =>
-      mkF (uf_name u) (TScalar 9 (bs "key")) false (uf_required u || primary) false primary tenant None
+  | KScalar pt k =>
+      mkF10 (uf_name u) (TScalar pt k) false (uf_required u) false false None None None (uf_optional u)
+  | KObject n =>
+      mkF10 (uf_name u) (TObject [] n) false (uf_required u) false false None None None (uf_optional u)
+  | KKey primary foreign tenant =>
+      mkF10 (uf_name u) (TScalar 9 (bs "key")) false (uf_required u || primary) false primary tenant None
+            foreign (uf_optional u)
   end.
+(* buildProperty: "cannot be both required and optional" (a primary key is required) *)
+Definition ufield_ok (u : ufield) : bool :=
+  negb (uf_optional u && (uf_required u || match uf_kind u with KKey p _ _ => p | _ => false end)).
 Definition plain_field (name : string) (t : otype) (required : bool) : ofield :=
   mkF (bs name) t false required false false None None.
 Definition array_field (name : bytes) (t : otype) (required : bool) : ofield :=
@@ -169,10 +184,10 @@ Definition status_values (prefix : bytes) (l : list bytes) : list (bytes * N) :=
 Definition status_enum (e : entity) : component :=
   CEnum (component_name e (bs "Status")) (status_values (status_prefix e) (e_status e)).
 
-(* findStatus *)
+(* findStatus: the name visitEnumNode/addValue gives the status (fix 705ef70) *)
 Definition find_status (e : entity) (f : bytes) : option bytes :=
   if existsb (bytes_eqb f) (e_status e)
-  then Some (to_screaming_snake (e_name e) ++ bs "_STATUS_" ++ to_screaming_snake f)
+  then Some (status_value_name (status_prefix e) f)
   else None.
 Fixpoint default_filters (e : entity) (l : list bytes) : option (list bytes) :=
   match l with
@@ -207,40 +222,51 @@ Definition event_msg (e : entity) : omsg :=
     [].
 
 (* ---- services (sourcewalk/service.go, j5convert/service.go) ------------------------ *)
-(* path.Join(base, rel) for clean operands *)
-Definition path_join (base rel : bytes) : bytes :=
-  match rel with [] => base | _ => base ++ [47] ++ rel end.
-
 (* split on '/' *)
 Fixpoint split_slash (cur : bytes) (s : bytes) : list bytes :=
   match s with
   | [] => [rev cur]
   | c :: r => if c =? 47 then rev cur :: split_slash [] r else split_slash (c :: cur) r
   end.
+(* path.Clean of a rooted path without "." and ".." elements: empty elements (repeated or
+   trailing slashes) disappear *)
+Definition is_nil {A} (l : list A) : bool := match l with [] => true | _ => false end.
+Definition segments (s : bytes) : list bytes := filter (fun p => negb (is_nil p)) (split_slash [] s).
+Definition clean_path (s : bytes) : bytes := [47] ++ join [47] (segments s).
+(* path.Join(base, rel): empty elements are ignored, the result is cleaned *)
+Definition path_join (base rel : bytes) : bytes :=
+  match rel with [] => clean_path base | _ => clean_path (base ++ [47] ++ rel) end.
+
 (* ":name" -> "{" ++ ToSnake name ++ "}" *)
 Definition conv_part (p : bytes) : bytes :=
   match p with
-  | 58 :: name => [123] ++ to_snake name ++ [125]
-  | _ => p
+  | c :: name => if c =? 58 then [123] ++ to_snake name ++ [125] else p
+  | [] => []
   end.
 Definition http_rule_path (resolved : bytes) : bytes :=
   join [47] (map conv_part (split_slash [] resolved)).
+Definition param_of (p : bytes) : list bytes :=
+  match p with c :: name => if c =? 58 then [name] else [] | [] => [] end.
 Definition path_params (resolved : bytes) : list bytes :=
-  flat_map (fun p => match p with 58 :: name => [name] | _ => [] end) (split_slash [] resolved).
+  flat_map param_of (split_slash [] resolved).
 
 Definition method_components (base : bytes) (name : bytes) (verb : N) (rel : bytes)
-    (req resp : list ofield) (sq : N) : list component * omethod :=
-  ( [ CMsg 1 (mkMsg (name ++ bs "Request") None false req []);
-      CMsg 1 (mkMsg (name ++ bs "Response") None false resp []) ],
-    mkMt name (name ++ bs "Request") (name ++ bs "Response") verb
+    (req : list ofield) (resp : option (list ofield)) (sq : N) : list component * omethod :=
+  ( CMsg 1 (mkMsg (name ++ bs "Request") None false req [])
+    :: match resp with
+       | Some r => [CMsg 1 (mkMsg (name ++ bs "Response") None false r [])]
+       | None => []
+       end,
+    mkMt name (name ++ bs "Request")
+         (match resp with Some _ => name ++ bs "Response" | None => bs ".google.api.HttpBody" end) verb
          (http_rule_path (path_join base rel)) sq ).
 
 Definition service_components (name : bytes) (ann : sann) (ms : list (list component * omethod))
   : list component :=
   flat_map fst ms ++ [CSvc 1 (mkSvc (name ++ bs "Service") ann (map snd ms))].
 
-Definition is_key_field (u : ufield) : bool := match uf_kind u with KKey _ _ => true | _ => false end.
-Definition is_primary (u : ufield) : bool := match uf_kind u with KKey p _ => p | _ => false end.
+Definition is_key_field (u : ufield) : bool := match uf_kind u with KKey _ _ _ => true | _ => false end.
+Definition is_primary (u : ufield) : bool := match uf_kind u with KKey p _ _ => p | _ => false end.
 (* acceptQuery: which keys go into the Get/Events path and into the List path *)
 Definition get_keys (e : entity) : list ufield :=
   map k_def (filter (fun k => is_key_field (k_def k) && (is_primary (k_def k) || k_shard k)) (e_keys e)).
@@ -258,14 +284,14 @@ Definition query_components (e : entity) : list component :=
   let events_in_get := match e_query e with Some q => q_events_in_get q | None => false end in
   let get := method_components base (n ++ bs "Get") 1 (join [47] (key_path (get_keys e)))
       (map of_ufield (get_keys e))
-      (mkF (to_lower_camel (snake_name e)) (local_obj e "State") false true false false None None
-       :: (if events_in_get then [array_field (bs "events") (local_obj e "Event") false] else [])) 1 in
+      (Some (mkF (to_lower_camel (snake_name e)) (local_obj e "State") false true false false None None
+       :: (if events_in_get then [array_field (bs "events") (local_obj e "Event") false] else []))) 1 in
   let lst := method_components base (n ++ bs "List") 1 (join [47] (key_path (list_keys e)))
       (map of_ufield (list_keys e) ++ [page_request; query_request])
-      [array_field (to_lower_camel (snake_name e)) (local_obj e "State") true; page_response] 2 in
+      (Some [array_field (to_lower_camel (snake_name e)) (local_obj e "State") true; page_response]) 2 in
   let evs := method_components base (n ++ bs "Events") 1 (join [47] (key_path (get_keys e) ++ [bs "events"]))
       (map of_ufield (get_keys e) ++ [page_request; query_request])
-      [array_field (bs "events") (local_obj e "Event") false; page_response] 3 in
+      (Some [array_field (bs "events") (local_obj e "Event") false; page_response]) 3 in
   service_components (n ++ bs "Query") (SQuery (snake_name e)) [get; lst; evs].
 
 Definition command_service_name (e : entity) (c : command) : bytes :=
@@ -280,7 +306,7 @@ Definition command_components (e : entity) (c : command) : list component :=
               end in
   service_components (command_service_name e c) (SCommand (snake_name e))
     (map (fun m => method_components base (md_name m) (md_verb m) (md_path m)
-                     (map of_ufield (md_request m)) (map of_ufield (md_response m)) 0)
+                     (map of_ufield (md_request m)) (option_map (map of_ufield) (md_response m)) 0)
          (c_methods c)).
 
 (* ---- topics (sourcewalk/topic.go acceptTopic, j5convert visitTopicNode) ---------------- *)
@@ -322,7 +348,8 @@ Definition expand_with (e : entity) (filters : list bytes) : list component :=
   ++ query_components e
   ++ flat_map (command_components e) (e_commands e)
   ++ publish_components e
-  ++ flat_map (summary_components e) (e_summaries e).
+  ++ flat_map (summary_components e) (e_summaries e)
+  ++ map (fun sc => CMsg 0 (mkMsg (fst sc) None false (map of_ufield (snd sc)) [])) (e_schemas e).
 
 (* the walker errors of run: unknown default status filter, duplicate summary name *)
 Definition expand (e : entity) : outcome (list component) :=
@@ -332,6 +359,34 @@ Definition expand (e : entity) : outcome (list component) :=
       if nodup_bytes (map s_name (e_summaries e)) then Ok (expand_with e filters)
       else Err "duplicate summary name"
   end.
+
+(* ---- the client API's view (structure.APIFromImage + j5client.APIFromSource) ------------ *)
+Record client_entity := mkCE {
+  ce_name : bytes; ce_full_name : bytes; ce_schema : bytes;
+  ce_primary_key : list bytes;
+  ce_query : bytes; ce_query_methods : list (bytes * bytes);      (* (name, :param path) *)
+  ce_commands : list (bytes * list (bytes * N * bytes));          (* service, (method, verb, path) *)
+  ce_events : list bytes }.
+
+Definition command_base (e : entity) (c : command) : bytes :=
+  match c_base c with
+  | Some b => [47] ++ base_url e ++ [47] ++ b
+  | None => [47] ++ base_url e ++ bs "/c"
+  end.
+
+Definition client_view (e : entity) : client_entity :=
+  let n := query_prefix e in
+  let base := [47] ++ base_url e ++ bs "/q" in
+  mkCE (snake_name e) (e_pkg e ++ [47] ++ snake_name e) (e_pkg e ++ [46] ++ component_name e (bs "State"))
+       (map uf_name (filter is_primary (map k_def (e_keys e))))
+       (n ++ bs "QueryService")
+       [ (n ++ bs "Get", path_join base (join [47] (key_path (get_keys e))));
+         (n ++ bs "List", path_join base (join [47] (key_path (list_keys e))));
+         (n ++ bs "Events", path_join base (join [47] (key_path (get_keys e) ++ [bs "events"]))) ]
+       (map (fun c => (command_service_name e c ++ bs "Service",
+                       map (fun m => (md_name m, md_verb m, path_join (command_base e c) (md_path m))) (c_methods c)))
+            (e_commands e))
+       (map (fun ev => to_lower_camel (ev_name ev)) (e_events e)).
 
 (* ---- reference resolution (j5convert resolveType over the file's exports + implicitImports) *)
 Definition implicit_imports : list (bytes * bytes) :=
@@ -371,9 +426,52 @@ Definition fields_of (cs : list component) : list ofield :=
 Definition closed (cs : list component) : bool :=
   forallb (fun f => ref_resolves (defined cs) (f_type f)) (fields_of cs).
 
+(* every user-declared field of the declaration *)
+Definition all_ufields (e : entity) : list ufield :=
+  map k_def (e_keys e) ++ e_data e ++ flat_map ev_fields (e_events e)
+  ++ flat_map (fun c => flat_map (fun m => md_request m ++ match md_response m with Some r => r | None => [] end)
+                                 (c_methods c)) (e_commands e)
+  ++ flat_map s_fields (e_summaries e)
+  ++ flat_map snd (e_schemas e).
+Definition fields_ok (e : entity) : bool := forallb ufield_ok (all_ufields e).
+
+(* visitServiceMethodNode: every ":name" part of the resolved path must be a request property *)
+Definition params_ok (req : list bytes) (resolved : bytes) : bool :=
+  forallb (fun p => existsb (bytes_eqb p) req) (path_params resolved).
+Definition query_params_ok (e : entity) : bool :=
+  let base := [47] ++ base_url e ++ bs "/q" in
+  params_ok (map uf_name (get_keys e)) (path_join base (join [47] (key_path (get_keys e))))
+  && params_ok (map uf_name (list_keys e) ++ [bs "page"; bs "query"])
+               (path_join base (join [47] (key_path (list_keys e))))
+  && params_ok (map uf_name (get_keys e) ++ [bs "page"; bs "query"])
+               (path_join base (join [47] (key_path (get_keys e) ++ [bs "events"]))).
+Definition command_params_ok (e : entity) : bool :=
+  forallb (fun c => forallb (fun m => params_ok (map uf_name (md_request m))
+                                                (path_join (command_base e c) (md_path m)))
+                            (c_methods c)) (e_commands e).
+
 (* the compile outcome as far as the expansion decides it *)
 Definition compile (e : entity) : outcome (list component) :=
   match expand e with
-  | Ok cs => if closed cs then Ok cs else Err "type not found"
+  | Ok cs => if closed cs then
+               if fields_ok e then
+                 if query_params_ok e && command_params_ok e then Ok cs
+                 else Err "missing field in request"
+               else Err "cannot be both required and optional"
+             else Err "type not found"
   | o => o
+  end.
+
+(* a source file with several entity declarations of one package: each entity is expanded in
+   turn into the same three files; any error fails the file *)
+Fixpoint compile_all (es : list entity) : outcome (list component) :=
+  match es with
+  | [] => Ok []
+  | e :: r =>
+      match compile e with
+      | Ok a => match compile_all r with Ok b => Ok (a ++ b) | o => o end
+      | Err c => Err c
+      | Panic p => Panic p
+      | OutOfFuel => OutOfFuel
+      end
   end.
